@@ -236,6 +236,13 @@ def report(ctx):
     del PENDING[:]
 
 
+def canonical(cases):
+    """TLC's workers print the cases in a schedule-dependent order: sort them, so that sampling and the choice of
+    spellings depend on the seed only"""
+    import json
+    return sorted(cases, key=lambda c: json.dumps(c, sort_keys=True))
+
+
 def s2c(ctx, cases, tag):
     for i, c in enumerate(cases):
         c['style'] = i % 12              # which spelling of the method list is used for this case
@@ -346,17 +353,17 @@ def run(ctx):
                 'has both NaN and valid cells and the call changed something; distinct by (cells, methods, limit).')
     if ctx.quick:
         ctx.mc('MC_Fill', 'MC_Fill_quick.cfg')
-        cases = ctx.generate('MC_Fill', 'MC_Fill_gen.cfg')
+        cases = canonical(ctx.generate('MC_Fill', 'MC_Fill_gen.cfg'))
         short = [c for c in cases if len(c['ms']) <= 1]
         pairs = [c for c in cases if len(c['ms']) > 1]
-        s2c(ctx, short + ctx.rng.sample(pairs, 9000), 'quick')     # thorough replays every case
+        s2c(ctx, short + ctx.rng.sample(pairs, 7000), 'quick')     # thorough replays every case
         ctx.extra['s2c_enumerated'] = len(cases)
         c2s(ctx, 400)
     else:
         ctx.mc('MC_Fill', 'MC_Fill_thorough.cfg')
         ctx.mc('MC_Fill', 'MC_Fill_thorough3.cfg')
-        s2c(ctx, ctx.generate('MC_Fill', 'MC_Fill_gen_big.cfg'), 'big')
-        s2c(ctx, ctx.generate('MC_Fill', 'MC_Fill_gen3.cfg'), 'triples')
+        s2c(ctx, canonical(ctx.generate('MC_Fill', 'MC_Fill_gen_big.cfg')), 'big')
+        s2c(ctx, canonical(ctx.generate('MC_Fill', 'MC_Fill_gen3.cfg')), 'triples')
         c2s(ctx, 6000)
     report(ctx)
     ctx.exhaustive = False
